@@ -1129,6 +1129,7 @@ func (d *Data) GetKeysInRange(ctx storage.VersionedCtx, keyBeg, keyEnd string) (
 		if err != nil {
 			return nil, err
 		}
+		keys = []string{} // an empty result is an empty JSON list, as on the in-memory path
 		process_func := func(key string) {
 			bodyid, err := parseKeyStr(key)
 			if err == nil && bodyid >= bodyidBeg && bodyid <= bodyidEnd {
@@ -1178,6 +1179,7 @@ func (d *Data) GetKeys(ctx storage.VersionedCtx) (out []string, err error) {
 		}
 		mdb.mu.RUnlock()
 	} else {
+		out = []string{} // an empty result is an empty JSON list, as on the in-memory path
 		process_func := func(key string) {
 			out = append(out, key)
 		}
